@@ -84,9 +84,9 @@ def worker(cfg, tier):
     inv_any = list(inv)  # any sender: no bound on the number of unarrived entries
     inv.append(regular)
     obs = []
-    tmo = 400 if tier == "quick" else 900
+    tmo = 400 if tier == "quick" else 600
     heavy = W >= 2  # non-linear queries over a 2-entry window with 4+ knots: z3's nlsat time is erratic; decided when it answers, else dropped (stated)
-    tmo_heavy = 30 if tier == "quick" else 180
+    tmo_heavy = 30 if tier == "quick" else 60
     od = out.data.y.flat()
     # query times written independently: x_j = ts_start - (K[idx_max-1] - K[idx_min+j]) with idx_max = n - m
     goals_pl, goals_between, goals_newest = [], [], []
